@@ -215,6 +215,8 @@ def gen_case(r, ctx, model):
         case["X"] = gen_rows(r, n, lo, hi, mode)
         case["y"] = gen_labels(r, n, k)
     case["params"] = p
+    if model in ("kmeans", "gnb", "scaler", "linreg") and r.chance(0.15):
+        case["prefit"] = True
     return case
 
 
@@ -283,6 +285,23 @@ def _bounds_arg(p, lo="lo", hi="hi", scalar="scalar_bounds"):
 
 
 def build(case):
+    """the estimator of a case; with case["prefit"] the SAME estimator object has been fitted before with narrower
+    bounds, which were then widened to the case's bounds by attribute assignment (re-use of an estimator)"""
+    if case.get("prefit"):
+        p = case["params"]
+        w = [b - a for a, b in zip(p["lo"], p["hi"])]
+        old = dict(p, lo=[a + 0.25 * w_ for a, w_ in zip(p["lo"], w)], hi=[b - 0.25 * w_ for b, w_ in zip(p["hi"], w)],
+                   scalar_bounds=False)
+        model = build({k: v for k, v in dict(case, params=old).items() if k != "prefit"})
+        with warnings.catch_warnings():
+            warnings.simplefilter("ignore")
+            model.fit(*fit_args(case, case["X"], case.get("y")))
+        model.accountant = dp.BudgetAccountant()
+        if case["model"] == "linreg":
+            model.bounds_X = _bounds_arg(p)
+        else:
+            model.bounds = _bounds_arg(p)
+        return model
     p, m, rs = case["params"], case["model"], case["seed"]
     M = dp.models
     acc = dp.BudgetAccountant()
@@ -538,8 +557,11 @@ def account(ctx, case, rep, recD, prD, recD2, prD2, yD, yD2, mismatch=None):
     eps = case["params"]["epsilon"]
     viol = []
     oD, oD2 = occupancy(case, prD, yD), occupancy(case, prD2, yD2)
-    if mismatch is not None and isinstance(oD2, list) and case["model"] in ("kmeans", "forest", "tree"):
-        oD = oD[:len(oD2)]          # the neighbour's fit stopped early: compare what it got to
+    if isinstance(oD2, list) and case["model"] in ("kmeans", "forest", "tree"):
+        # one of the fits may have stopped earlier than the other: compare the occupancy of what both got to
+        # (a data-dependent NUMBER of iterations is not an occupancy difference)
+        k_ = min(len(oD), len(oD2))
+        oD, oD2 = oD[:k_], oD2[:k_]
     same_occ = oD == oD2
     if mismatch is not None or len(recD) != len(recD2) or any(a.cls != b.cls for a, b in zip(recD, recD2)):
         if not same_occ:
